@@ -81,7 +81,7 @@ type fakeInst struct {
 	sequential     bool
 }
 
-func (f *fakeInst) GetContext() context.Context      { return f.ctx }
+func (f *fakeInst) GetContext() context.Context       { return f.ctx }
 func (f *fakeInst) GetDirective() directive.Directive { return f.dir }
 func (f *fakeInst) GetDirectiveIdent() string         { return "EstablishLinkWithPeer" }
 func (f *fakeInst) GetResolverErrors() []error        { return nil }
@@ -388,6 +388,7 @@ func enumerate(nl, n int, f func([]act)) {
 
 func c33(c *hx.Ctx) {
 	c.Type = "c33_case"
+	c.ShardSize = 100
 	c.Agree = "c33_agree"
 	c.Rule = "action lists of HandleValueAdded/HandleValueRemoved/HandleInstanceDisposed callbacks on 1-3 links with Yield = run every spawned goroutine (GOMAXPROCS(1)); exhaustive short lists, random longer ones, a malformed stream (duplicate adds, spurious removes, non-link values); concurrent add/remove runs checked by the oracle only; non-trivial = distinct valid list in which a strong reference was acquired"
 	runtime.GOMAXPROCS(1)
@@ -409,7 +410,7 @@ func c33(c *hx.Ctx) {
 	// exhaustive sweeps
 	maxLen2, maxLen3 := 4, 3
 	if thorough {
-		maxLen2, maxLen3 = 7, 6
+		maxLen2, maxLen3 = 6, 5
 	}
 	for n := 1; n <= maxLen2; n++ {
 		enumerate(2, n, func(a []act) { emit(c, a, fmt.Sprintf("exhaustive-2links-len%d", n)) })
